@@ -189,13 +189,22 @@ def build(p):
             E.emit("Layer", k=i, s=t, a=main_param, b=ly.get("sleep", -1),
                    c=7 if ly.get("policy") else (1 if ly.get("block") else 0),
                    xs=[{"tag": 1, "raise": 2, "reraise": 3, "nonfuture": 4, "later": 5, None: 0}[ly.get("fn")],
-                       {"tag": 1, "raise": 2, "reraise": 3, None: 0}[ly.get("efn")],
+                       {"tag": 1, "raise": 2, "reraise": 3, "fail_future": 4, None: 0}[ly.get("efn")],
                        {"first": 1, "second": 2, "raise1": 3, "never": 4, None: 0}[ly.get("mode")]])
             if t == "map":
                 ex = Executors.with_map(tap, mk_fn(i, ly.get("fn"), "fn"), error_fn=mk_fn(i, ly.get("efn"), "efn"),
                                         name=nm)
             elif t == "flat_map":
-                ex = Executors.with_flat_map(tap, mk_flat_fn(i, ly.get("fn")), name=nm)
+                fefn = None
+                if ly.get("efn") == "fail_future":
+                    def fefn(exc, i=i):
+                        # answered from inside the `except` of the failing stage: returns a future that already
+                        # failed with an exception of its own
+                        E.emit("FnCall", k=i, s="fefn:fail_future")
+                        f = Future()
+                        f.set_exception(LayerError(i, "fefn"))
+                        return f
+                ex = Executors.with_flat_map(tap, mk_flat_fn(i, ly.get("fn")), error_fn=fefn, name=nm)
             elif t == "retry" and ly.get("policy"):
                 from more_executors import ExceptionRetryPolicy
 
